@@ -137,7 +137,8 @@ def gen_numeric(tier, rng):
                                                "multiply_where", "add_where", "call_arrays", "getitem_index", "where_cond",
                                                "choose_index", "repeat_counts", "monomial_bounds", "glexsort_keys", "savetxt_none",
                                                "glexindex_bounds", "bindex_bounds", "cross_truncate_args", "lead_sortable_args",
-                                               "call_function_form", "polynomial_dict_kept", "list_arguments"]),
+                                               "call_function_form", "polynomial_dict_kept", "list_arguments",
+                                               "axis_arrays", "from_roots_array", "shape_arrays", "edge_arrays"]),
                "edtype": rng.choice(["uint32", "int64", "uint32", "int32"])}
 
 
@@ -145,7 +146,8 @@ def gen_numeric(tier, rng):
        note="bounded: plain numeric arrays handed to constructors and functions (exponent tables of dtype uint32/int32/int64, "
             "coefficient arrays, where= masks, index/count arrays, evaluation points) keep their bytes; containers handed over "
             "(the keyword mapping and argument tuple of numpoly.call(poly, args, kwargs), a dict of terms, lists of operands) keep "
-            "their entries")
+            "their entries; integer arrays given as axis (negative entries), roots, repetition counts, target shape, to_begin/to_end/prepend/"
+            "append keep their bytes")
 def numeric_arguments(inp):
     import numpoly
     spec = inp["p"]
@@ -165,8 +167,13 @@ def numeric_arguments(inp):
     pargs = tuple(pts[: len(names) - 1])
     terms = {tuple(int(x) for x in e): c for e, c in zip(E, C)}
     operands = [p, p + 1]
+    axes = numpy.array([-1, 0])                                 # parameters given as integer arrays (negative entries, not sorted)
+    axis1 = numpy.array([-1])
+    roots = numpy.array([3.0, -1.0, 2.0])
+    reps, newshape, edge = numpy.array([2, 1]), numpy.array([-1]), numpy.array([5, -4, 9])
     held = {"E": E, "C": C, "mask": mask, "pts": pts, "idx": idx, "p": p, "lo": lo, "hi": hi, "grid": grid,
-            "kw": kw, "pargs": pargs, "terms": terms, "operands": operands}
+            "kw": kw, "pargs": pargs, "terms": terms, "operands": operands, "axes": axes, "axis1": axis1, "roots": roots,
+            "reps": reps, "newshape": newshape, "edge": edge}
     before = {k: snapshot(v) for k, v in held.items()}
     route = inp["route"]
     try:
@@ -218,6 +225,25 @@ def numeric_arguments(inp):
         elif route == "list_arguments":
             numpoly.concatenate(operands), numpoly.align_polynomials(*operands), numpoly.sum(operands, axis=0)
             numpoly.polynomial(operands)
+        elif route == "axis_arrays":
+            m = numpoly.polynomial([[p.ravel()[0] if p.size else 1, 2], [3, 4]])
+            for f in ("prod", "sum", "mean"):
+                for call in (lambda: getattr(numpoly, f)(m, axis=axes), lambda: getattr(numpy, f)(m, axis=tuple(axes)),
+                             lambda: getattr(numpoly, f)(m, axis=axis1), lambda: getattr(m, f)(axis=axes)):
+                    try:
+                        call()
+                    except Exception:
+                        pass
+        elif route == "from_roots_array":
+            numpoly.polynomial_from_roots(roots)
+            numpoly.polynomial_from_roots(roots.astype(int))
+        elif route == "shape_arrays":
+            m = numpoly.polynomial([[1, 2], [3, p.ravel()[0] if p.size else 4]])
+            numpoly.tile(m, reps), numpoly.reshape(m, newshape), numpoly.repeat(m, reps, axis=0), numpoly.full(reps, m[0, 0])
+        elif route == "edge_arrays":
+            v = numpoly.polynomial([1, p.ravel()[0] if p.size else 2, 3])
+            numpoly.ediff1d(v, to_end=edge, to_begin=edge), numpoly.diff(v, prepend=edge, append=edge)
+            numpoly.concatenate([v, edge]), numpoly.where(edge > 0, v, edge), numpoly.outer(v, edge), numpoly.inner(v, edge)
         elif route == "savetxt_none":
             import io
             numpoly.savetxt(io.StringIO(), p)
